@@ -356,6 +356,7 @@ impl SoftMmu {
     }
 
     /// Change the emulated CR3 (the root of the walks).
+    #[allow(dead_code)]
     pub fn set_cr3(&mut self, cr3: u64) {
         unsafe {
             ST.cr3 = cr3;
@@ -423,8 +424,4 @@ pub fn end_call(phase: u8) {
 /// The accumulated fault log since the last `take_log`, in order of occurrence.
 pub fn take_log() -> Vec<Fault> {
     unsafe { core::mem::take(&mut ACC) }
-}
-
-pub fn active() -> bool {
-    unsafe { ST.active }
 }
